@@ -72,8 +72,9 @@ def declarations(ctx: Ctx) -> None:
                        f"attribute '{attr}' is declared for key {d.key!r}: SMChart.__getitem__ (getattr(self, key.lower())) and the documented attribute names rely on attr == key.lower()", node=ci.node)
             if d.alias:
                 aliases[(ci.fq, attr)] = (d.key, d.alias)
-    ctx.floor("item_property declarations", n, 69)
     ctx.expect("R-TABLE", ("simfile", ""), "alias table == {SMSimfile.stops: FREEZES, BaseSimfile.bgchanges: ANIMATIONS, SSCChart.notes: NOTES2}", aliases == SPEC_ALIASES, str(aliases), f"aliases declared: {aliases}")
+    if aliases == SPEC_ALIASES:
+        ctx.floor("item_property declarations", n, 69)
     # an override of an aliased property in a subclass must not drop the alias silently (except where documented)
     for ci in p.nontest_classes():
         own = p.own_descriptors(ci)
